@@ -646,9 +646,16 @@ fn injections(s: &Scenario, r: &Reference, tier: Tier) -> Vec<Inject> {
     for (k, (kind, file, _)) in r.ops.iter().enumerate() {
         if kind == "persist" || kind == "persisted" {
             let size = r.files.iter().find(|(n, _)| n == file).map(|(_, b)| b.len() as u64).unwrap_or(64);
-            for limit in [0, size / 2] {
-                for ignore_signal in [false, true] {
-                    out.push(Inject::FsizeFrom { k: k as u64, limit, ignore_signal });
+            // at the operation itself, and at each of the few operations that precede it (the
+            // last writes and flushes of the work file)
+            for back in 0..5usize {
+                if back > k {
+                    break;
+                }
+                for limit in [0, size / 2] {
+                    for ignore_signal in [false, true] {
+                        out.push(Inject::FsizeFrom { k: (k - back) as u64, limit, ignore_signal });
+                    }
                 }
             }
         }
